@@ -163,7 +163,11 @@ async fn run_storm(a: &Args, m: &mut mon::Mon) {
                     }
                 }
             }
-            if k == 300 && matches!(a.prop.as_str(), "C02" | "C01" | "C06") && world_no % 2 == 0 {
+            if k % 500 == 50 && matches!(a.prop.as_str(), "C02" | "ALL") {
+                w.refresh_oracles();
+                scen::close_bank_cycle(&mut w, m, &mut r, s.g, s.liquidator).await;
+            }
+            if k == 300 && matches!(a.prop.as_str(), "C02" | "C01" | "C06") && (world_no % 2 == 0 || a.prop == "C02") {
                 // a bank is wiped out by bad debt half-way through (ledger / solvency exception / accrual on a dead bank)
                 w.refresh_oracles();
                 let lender = s.liquidator;
